@@ -227,6 +227,8 @@ func genSimVM(r *kit.Rand, tier kit.Tier) *evm.Cfg {
 		v.Reqs = v.Reqs[:1]
 	}
 
+	v.DefaultPT = r.Chance(1, 2)
+
 	return &v
 }
 
